@@ -365,6 +365,11 @@ def check_surrogate_multi(case):
         except np.linalg.LinAlgError as e:     # a numerically singular interpolation matrix is refused by scipy; the statement is about trained surrogates
             out.label("training_refused:" + type(e).__name__)
             return out
+        if "curv" in trained and np.min(np.asarray(s.curvatureData["BETA"]["xEqAlpha"], dtype=float)) <= 1e-12:
+            # the analytic backend ran a tie-line into the corner of the simplex (a solute exhausted: composition 0 or 1e-16);
+            # a real backend never returns that, and its logarithm cannot be interpolated
+            out.label("toy_tieline_exhausted")
+            return out
         # untrained quantities of a partly trained surrogate still come from the backend
         got = queries(s)
         groups = {"df": ["getDrivingForce", "getDrivingForce1"], "diff": ["getInterdiffusivity", "getTracerDiffusivity"],
@@ -459,7 +464,7 @@ def _surr_multi_case(draw):
         Ttrain = [T0, T0 + 30.0, T0 - 30.0][:nT]
     else:
         nx = draw(st.integers(6, 10))
-        Ttrain = [T0 - 40.0 + 80.0 * (k + draw(st.floats(0.0, 0.6))) / nx for k in draw(st.permutations(list(range(nx))))]    # point-wise lists: distinct temperatures (a constant column is degenerate)
+        Ttrain = [T0 + (-1) ** k * (8.0 + 4.0 * k + draw(st.floats(0.0, 3.0))) for k in range(nx)]    # point-wise lists: distinct temperatures that zig-zag, so the points are never collinear in (x, T)
     # distinct, separated training compositions (duplicates make any interpolant singular): distinct cells of a 5x5 lattice, jittered inside the cell
     cells = draw(st.lists(st.tuples(st.integers(0, 4), st.integers(0, 4)), min_size=nx, max_size=nx, unique=True))
     xtrain = [[x0[0] * (0.8 + 0.2 * i + draw(st.floats(0.0, 0.08))), x0[1] * (0.8 + 0.2 * j + draw(st.floats(0.0, 0.08)))] for i, j in cells]
@@ -511,7 +516,7 @@ def _surr_case(draw):
     Ttrain = [T0] if draw(st.booleans()) else [T0 - 40.0, T0, T0 + 40.0][: draw(st.integers(2, 3))]
     train = draw(st.lists(st.sampled_from(["df", "diff", "ic"]), min_size=0, max_size=3, unique=True))
     pointwise = draw(st.integers(0, 3)) == 3
-    Tpoint = [T0 - 40.0 + 80.0 * (k + draw(st.floats(0.0, 0.6))) / nx for k in draw(st.permutations(list(range(nx))))] if pointwise else None
+    Tpoint = [T0 + (-1) ** k * (8.0 + 4.0 * k + draw(st.floats(0.0, 3.0))) for k in range(nx)] if pointwise else None      # zig-zag: never collinear with the increasing compositions
     return {"pointwise": pointwise, "Tpoint": Tpoint, "ic_grid": draw(st.booleans()), "phase": phase, "D0": 1e-5, "Q": draw(st.floats(100e3, 250e3)), "xtrain": [float(v) for v in xtrain], "Ttrain": Ttrain,
             "gtrain": [float(v) for v in np.linspace(draw(st.floats(50, 500)), draw(st.floats(1000, 4000)), draw(st.integers(4, 7)))],
             "train": train, "logX": draw(st.booleans()), "kernel": draw(st.sampled_from(["cubic", "linear", "thin_plate_spline"])),
